@@ -235,6 +235,22 @@ def install(reg):
         return VNone()
     E["os.close"] = os_close
 
+    def os_link(p, args, kw):
+        """hard link: dst becomes another name of src's bytes.  The model cannot express the aliasing (a later write through one name
+        alters the other), so the effect is recorded with its own kind and no frame admits it silently."""
+        fs = fs_of(p)
+        src, dst = str_term(p, args[0]), str_term(p, args[1])
+        maybe_oserror(p, "link")
+        if not p.branch(kind_at(p, fs.kind, src) == FILE):
+            p.raise_("FileNotFoundError")
+        if not p.branch(kind_at(p, fs.kind, dst) == ABSENT):
+            p.raise_("FileExistsError")
+        fs.kind = z3.Store(fs.kind, dst, FILE)
+        fs.data = z3.Store(fs.data, dst, z3.Select(fs.data, src))
+        effect(p, "link", dst, src=src)
+        return VNone()
+    E["os.link"] = os_link
+
     def os_mkdir(p, args, kw):
         fs = fs_of(p)
         t = str_term(p, args[0])
